@@ -756,4 +756,26 @@ example : Keyed {} := by intro k row h; simp at h
 example : ∃ (row : SRow) (t : Int), row.svr.refreshedAt = some t ∧ t > 3 :=
   ⟨⟨{ addr := ⟨0, 5⟩, queryPort := 6, status := 6#9, info := [], details := ⟨[], [], []⟩, refreshedAt := some 10, version := 4 }, 10⟩, 10, rfl, by decide⟩
 
+/-- **Configuration wiring (regenerated fact).**  How configuration reaches the cleaner component (retention reaches both cleaners unchanged) and the liveness setting (command line → settings → browser handler / observer): every field of every
+configuration literal in `cmd/swat4master` that concerns this property, with the source text of the value it is given
+(`verifharness facts`, go/ast, on every run).  A command-line value wired to another field, a unit conversion or a
+`max`/`min` slipped into one of these literals changes the generated list and breaks this theorem; the harness itself
+drives these components through their real fx modules (DESIGN 10.8), this pins what the modules are given. -/
+def configRows : List (String × String × String × String × String) :=
+    [("components/browser/browser.go", "var Module", "browser.HandlerOpts", "Liveness", "settings.ServerLiveness"),
+     ("components/cleaner/cleaner.go", "provideCleanerConfigs", "Opts", "ServerCleanerOpts", "servercleaner.Opts{ Retention: cfg.CleanRetention, }"),
+     ("components/cleaner/cleaner.go", "provideCleanerConfigs", "Opts", "InstanceCleanerOpts", "instancecleaner.Opts{ Retention: cfg.CleanRetention, }"),
+     ("components/cleaner/cleaner.go", "provideCleanerConfigs", "servercleaner.Opts", "Retention", "cfg.CleanRetention"),
+     ("components/cleaner/cleaner.go", "provideCleanerConfigs", "instancecleaner.Opts", "Retention", "cfg.CleanRetention"),
+     ("components/cleaner/cleaner.go", "*command.Run", "Config", "CleanRetention", "c.CleanRetention"),
+     ("components/cleaner/cleaner.go", "*command.Run", "Config", "CleanInterval", "c.CleanInterval"),
+     ("components/observer/observer.go", "provideObserverConfigs", "Opts", "ServerObserverOpts", "serverobserver.Opts{ ServerLiveness: settings.ServerLiveness, }"),
+     ("components/observer/observer.go", "provideObserverConfigs", "serverobserver.Opts", "ServerLiveness", "settings.ServerLiveness"),
+     ("main.go", "main", "settings.Settings", "ServerLiveness", "cli.Globals.BrowsingServerLiveness")]
+
+theorem facts_config_wiring :
+    (Facts.configWiring.filter fun r => configRows.contains r) = configRows ∧
+    (Facts.configWiring.filter fun r => configRows.any fun c => c.1 == r.1 && c.2.1 == r.2.1 && c.2.2.1 == r.2.2.1 && c.2.2.2.1 == r.2.2.2.1) = configRows := by
+  decide
+
 end Swat4.C14
